@@ -28,6 +28,10 @@ Record fence_attrs := mkFence {
   f_indentation : Z; f_delimiter : str; f_info : str; f_language : str; f_content : str
 }.
 
+Record lrd_attrs := mkLrd {
+  d_label : str; d_dest : str; d_title : str; d_dest_type : str; d_title_delim : str
+}.
+
 Record item_attrs := mkItem {
   i_leader : str; i_indentation : Z; i_prepend : Z; i_loose : bool
 }.
@@ -60,7 +64,11 @@ Inductive tok :=
 | TableCell (align : option Z) (ch : list tok)
 | ThematicBreak (line : str)
 | HtmlBlock (content : str)
-| Document (ch : list tok).
+| Document (ch : list tok)
+(* tokens that exist only while the Markdown renderer is active *)
+| BlankLine
+| LinkRefDef (a : lrd_attrs)                 (* markdown_renderer.LinkReferenceDefinition *)
+| LinkRefDefBlock (ch : list tok).           (* markdown_renderer.LinkReferenceDefinitionBlock *)
 
 Section TokInd.
   Variable P : tok -> Prop.
@@ -91,6 +99,9 @@ Section TokInd.
   Hypothesis H_ThematicBreak : forall l, P (ThematicBreak l).
   Hypothesis H_HtmlBlock : forall c, P (HtmlBlock c).
   Hypothesis H_Document : forall ch, AllP ch -> P (Document ch).
+  Hypothesis H_BlankLine : P BlankLine.
+  Hypothesis H_LinkRefDef : forall a, P (LinkRefDef a).
+  Hypothesis H_LinkRefDefBlock : forall ch, AllP ch -> P (LinkRefDefBlock ch).
 
   Fixpoint tok_ind' (t : tok) : P t :=
     let all := (fix all (l : list tok) : Forall P l :=
@@ -133,6 +144,9 @@ Section TokInd.
     | ThematicBreak l => H_ThematicBreak l
     | HtmlBlock c => H_HtmlBlock c
     | Document ch => H_Document ch (all ch)
+    | BlankLine => H_BlankLine
+    | LinkRefDef a => H_LinkRefDef a
+    | LinkRefDefBlock ch => H_LinkRefDefBlock ch (all ch)
     end.
 End TokInd.
 
@@ -141,12 +155,13 @@ Definition children (t : tok) : option (list tok) :=
   | Strong _ ch | Emphasis _ ch | Strikethrough ch | Image _ ch | Link _ ch
   | AutoLink _ _ ch | EscapeSequence ch | Heading _ _ ch | SetextHeading _ _ ch
   | Quote ch | Paragraph ch | List _ _ ch | ListItem _ ch | Table _ _ ch
-  | TableRow _ ch | TableCell _ ch | Document ch => Some ch
+  | TableRow _ ch | TableCell _ ch | Document ch | LinkRefDefBlock ch => Some ch
+  | BlankLine => Some []
   | InlineCode a => Some [RawText (c_content a)]
   | BlockCode c => Some [RawText c]
   | CodeFence a => Some [RawText (f_content a)]
   | HtmlBlock c => Some [RawText c]
-  | RawText _ | LineBreak _ _ | HtmlSpan _ | Math _ | ThematicBreak _ => None
+  | RawText _ | LineBreak _ _ | HtmlSpan _ | Math _ | ThematicBreak _ | LinkRefDef _ => None
   end.
 
 Definition is_paragraph (t : tok) : bool := match t with Paragraph _ => true | _ => false end.
